@@ -8,7 +8,7 @@ from vf.ref import fixwire
 META = {
     "level": "exploration",
     "rule": ("outbound journals built through the real send path of a logged-on connection: every sequence of length <= 3 (quick) / <= 4 "
-             "(thorough) over slot kinds {application, application of a type sharing its first character with a session type (AE, AS, 8, j, ...), application the replay filter declines, Heartbeat, TestRequest, ResendRequest, Logout, "
+             "(thorough) over slot kinds {application, application of a type sharing its first character with a session type (AE, AS, 8, j, ...), application with nested repeating groups (and an explicit PossDupFlag=N), application the replay filter declines, Heartbeat, TestRequest, ResendRequest, Logout, "
              "hole (number consumed, drain failed)} after the Logon reply, plus random journals up to 9 slots, optionally preceded by an "
              "earlier serviced ResendRequest (covering or partial) that leaves PossDup copies and gap-fill rows; x (BeginSeqNo, EndSeqNo) in "
              "{1, mid, last, last+1, last+10, 0, -3} x {0, Begin-1, Begin, mid, last, last+5} x state {ACTIVE, RESENDREQ_AWAITING}; oracle: "
@@ -22,7 +22,7 @@ META = {
 }
 REQUIRED_ORACLES = ["chain", "side-effects"]
 NSHARDS = 16
-KINDS = ["app", "appx", "decl", "hb", "tr", "rr", "lo", "hole"]
+KINDS = ["app", "appx", "appg", "decl", "hb", "tr", "rr", "lo", "hole"]
 APPX_TYPES = ["AE", "AS", "AB", "AZ", "8", "BZ", "j"]     # application types that share a first character with session types
 SESSION_TYPES = {"A", "0", "1", "2", "4", "5"}
 
@@ -68,6 +68,13 @@ async def run_case(acc, clock, slots, prior, req, state, cid):
                     await ep.send_msg(FIXMessage("D", {11: f"ok{i}", 55: "X", 58: "a=b"}))
                 elif k == "appx":
                     await ep.send_msg(FIXMessage(APPX_TYPES[(i + len(slots)) % len(APPX_TYPES)], {11: f"okx{i}", 55: "X"}))
+                elif k == "appg":
+                    # an application message with (nested) repeating groups and an explicit PossDupFlag=N: retransmitted with the same body
+                    mg = FIXMessage("D", {11: f"okg{i}", 55: "X"})
+                    mg.set_group(453, [{448: "p1", 447: "D", 452: 1}, {448: "p2", 447: "D", 452: 3, 802: [{523: "s", 803: 1}]}])
+                    if i % 2:
+                        mg[43] = "N"
+                    await ep.send_msg(mg)
                 elif k == "decl":
                     await ep.send_msg(FIXMessage("D", {11: f"decl{i}", 55: "X"}))
                 elif k == "hb":
